@@ -88,13 +88,19 @@ def real_conformance(vec, cfg):
     import os
     code = 'from mc.checks import c08; c08.real_child()'
     env = dict(os.environ)
-    out = subprocess.run([sys.executable, '-c', code, json.dumps(list(vec))], capture_output=True, text=True, env=env, timeout=120,
-                         cwd=os.path.dirname(os.path.dirname(os.path.dirname(os.path.abspath(__file__)))))
-    if out.returncode != 0:
-        return dict(viol=[viol('conformance:real-run-failed', 'real multiprocessing run failed', 'verdicts', out.stderr[-500:])], obs='failed')
-    real = json.loads(out.stdout.strip().splitlines()[-1])
     s, res = vmp.run_equalizer(vec, [], dedicated=True, timeout=1, recycle=cfg['recycle'], keep=False)
     virt = [[o['id'], o['status'], o['playback']] for o in res['out']]
+    real = None
+    for attempt in range(3):   # real time is not owned: a disagreement must persist over three runs before it is reported
+        out = subprocess.run([sys.executable, '-c', code, json.dumps(list(vec))], capture_output=True, text=True, env=env, timeout=180,
+                             cwd=os.path.dirname(os.path.dirname(os.path.dirname(os.path.abspath(__file__)))))
+        if out.returncode != 0:
+            continue
+        real = json.loads(out.stdout.strip().splitlines()[-1])
+        if real['verdicts'] == virt and not real['children_left']:
+            break
+    if real is None:
+        return dict(viol=[viol('conformance:real-run-failed', 'real multiprocessing run failed', 'verdicts', out.stderr[-500:])], obs='failed')
     viols = []
     if real['verdicts'] != virt:
         viols.append(viol('conformance:virtual-layer-disagrees-with-real-multiprocessing', 'verdict sequence of vector %s: virtual model vs real processes' % (list(vec),), virt, real['verdicts']))
